@@ -123,6 +123,15 @@ def _validate(ctx, recs, defect, shards):
     by = collections.OrderedDict()
     for r in recs:
         by.setdefault(r["sc"], []).append(r)
+    # an execution during which the machine stalled (an answer timed out, the session was still
+    # busy at the hard limit of a wait) is not evidence: not judged
+    stalled = [k for k, v in by.items() if any(r["op"] == "stalled" or r["err"] in ("timeout", "hang") for r in v)]
+    for k in stalled:
+        del by[k]
+    ctx.cov_stalled = getattr(ctx, "cov_stalled", 0) + len(stalled)
+    if len(stalled) * 20 > len(by) + len(stalled):
+        raise vf.Inconclusive("%d of %d executions stalled (timeouts): the machine is too loaded for a verdict" % (
+            len(stalled), len(by) + len(stalled)))
     for v in by.values():
         v.sort(key=lambda r: r["k"])
     keys = list(by.keys())
@@ -288,7 +297,8 @@ def run(ctx):
     ctx.cov = dict(
         states=states, transitions=trans, traces_validated_against_impl=len(by), exhaustive=True,
         model_configs=runs, histories=gen_stats, steps_executed=total["Steps"], recorded_states=lines,
-        states_not_judged_after_violation=skipped, waits_expired=total["Timeouts"],
+        states_not_judged_after_violation=skipped, executions_ending_off_model=total["Timeouts"],
+        executions_dropped_for_stalls=getattr(ctx, "cov_stalled", 0),
         driver_model_variant="DefectByAddr=%s (chosen by the probe history)" % defect,
         violation_classes={k: v for k, v in kinds.items()},
         samples=[dict(kind="history", steps=_sig(sample),
